@@ -5,6 +5,9 @@
 // Case kinds (the case list is the same for every seed: the grid is finite and
 // enumerated completely; the seed only permutes nothing here):
 //
+// The grid and most effect cases do not depend on the seed; the seed chooses the
+// queue-length sequences of the additional resize variants.
+//
 //	grid-sock / grid-ctx / grid-dialer / grid-listener / grid-pipe
 //	    one object's whole option-name x value grid (Set under recover, Get after
 //	    an accepted Set), before ("fresh") or after ("conn") connecting
@@ -14,6 +17,7 @@
 //	deferred  an accepted queue length must not blow up when the next pipe is added
 //	inherit   options set on the socket are read back from dialers/listeners/contexts made afterwards
 //	resize    changing a queue length with traffic flowing never disconnects a peer
+//	stall     the same against a vt peer: receiver known parked on a full queue / peer known stalled
 //	unsup     operations the pattern does not have -> ErrProtoOp, no side effect
 //	device    Device on cooked / mismatched / nil sockets -> designated error, no side effect
 package c19
@@ -32,7 +36,8 @@ type spec struct {
 	Phase string `json:"phase,omitempty"` // fresh | conn
 	Opt   string `json:"opt,omitempty"`
 	K     int    `json:"k,omitempty"`
-	Dir   string `json:"dir,omitempty"`
+	Dir   string `json:"dir,omitempty"` // resize: which side the socket under test is (listen | dial)
+	Seq   []int  `json:"seq,omitempty"` // resize: queue lengths to cycle through
 }
 
 func TestMain(m *testing.M) { hx.Main(m) }
@@ -81,13 +86,13 @@ func caseList(r *mon.Runner) []mon.CaseSpec {
 	if r.Thorough() {
 		effTrans = hx.Transports
 	}
-	for _, z := range zeroPlans() {
+	for _, z := range zeroPlans(effTrans) {
 		add(z)
 	}
 	for _, s := range retainPlans(r.Thorough()) {
 		add(s)
 	}
-	for _, s := range qlen0Plans() {
+	for _, s := range qlen0Plans(effTrans) {
 		add(s)
 	}
 	for _, s := range deferredPlans() {
@@ -98,12 +103,27 @@ func caseList(r *mon.Runner) []mon.CaseSpec {
 			add(spec{Kind: "inherit", Proto: p, Tran: tr})
 		}
 	}
+	rnd := r.Rand()
+	randSeq := func() []int {
+		q := make([]int, 5+rnd.Intn(8))
+		for i := range q {
+			q[i] = []int{1, 1, 2, 3, 4, 5, 8, 16, 64, 128, 300}[rnd.Intn(11)]
+		}
+		return q
+	}
+	nvar := r.Pick(1, 4)
 	for _, p := range hx.AllProtos {
 		for _, o := range []string{"READQ-LEN", "WRITEQ-LEN"} {
 			for _, tr := range effTrans {
-				add(spec{Kind: "resize", Proto: p, Tran: tr, Opt: o})
+				add(spec{Kind: "resize", Proto: p, Tran: tr, Opt: o, Dir: "listen", Seq: resizeSeq})
+				for v := 0; v < nvar; v++ {
+					add(spec{Kind: "resize", Proto: p, Tran: tr, Opt: o, Dir: []string{"dial", "listen"}[v%2], Seq: randSeq()})
+				}
 			}
 		}
+	}
+	for _, s := range stallPlans(r) {
+		add(s)
 	}
 	for _, p := range hx.AllProtos {
 		for _, tr := range effTrans {
@@ -138,6 +158,8 @@ func TestC19(t *testing.T) {
 			runInherit(c, sp)
 		case "resize":
 			runResize(c, sp)
+		case "stall":
+			runStall(c, sp)
 		case "unsup":
 			runUnsup(c, sp)
 		case "device":
